@@ -560,8 +560,15 @@ func (l *Logger) rotateFileLocked() {
 	// Close current file
 	l.currentFile.Close()
 
-	// Rename with timestamp
-	rotatedPath := fmt.Sprintf("%s.%s", l.filePath, time.Now().Format("20060102-150405"))
+	// Rename with timestamp. The timestamp has a resolution of one second: a
+	// second rotation within the same second must not overwrite the file of
+	// the first one (its records would be lost), so a counter is appended
+	// until the name is free.
+	stamp := time.Now().Format("20060102-150405")
+	rotatedPath := fmt.Sprintf("%s.%s", l.filePath, stamp)
+	for i := 1; rotatedExists(rotatedPath); i++ {
+		rotatedPath = fmt.Sprintf("%s.%s.%d", l.filePath, stamp, i)
+	}
 	os.Rename(l.filePath, rotatedPath)
 
 	// Compress if enabled
@@ -579,6 +586,15 @@ func (l *Logger) rotateFileLocked() {
 	l.currentFile = f
 	l.writer = f
 	l.currentSize = 0
+}
+
+// rotatedExists reports whether a rotated file of that name exists, plain or compressed
+func rotatedExists(path string) bool {
+	if _, err := os.Stat(path); err == nil {
+		return true
+	}
+	_, err := os.Stat(path + ".gz")
+	return err == nil
 }
 
 // compressFile compresses a rotated log file
